@@ -10,6 +10,7 @@ Exit 0 when everything agrees, 1 otherwise.
 """
 import io
 import random
+import struct
 import sys
 from typing import List, cast
 
@@ -40,7 +41,7 @@ class OriginalImageParser(AkaiImageParser):
                     _elem_parent=self,
                     _elem_routines=self._routines
                 )
-            except (InvalidPartition, ConstructError) as e:
+            except (InvalidPartition, ConstructError, struct.error) as e:  # as in the tree after the struct.error fix
                 break
             partitions.append(partition)
             partition_cnt += 1
